@@ -26,13 +26,16 @@ Special == {Anch(<<>>), Anch(<<T(a), Term(Dot, Q(0, Unbounded, FALSE))>>), Anch(
 Nested == {Anch(<<Term(Group(OneTerm(Term(Group(x), q1))), q2)>>) :
              x \in {OneCat(<<T(a)>>), OneCat(<<Term(a, Q(0, Unbounded, FALSE))>>), Alt(<<Cat(<<T(a)>>), Cat(<<>>)>>), Alt(<<Cat(<<>>), Cat(<<>>)>>)},
              q1 \in {Q(0, Unbounded, FALSE), Q(1, Unbounded, FALSE), Q(0, 1, FALSE)}, q2 \in {Q(0, Unbounded, FALSE), Q(1, Unbounded, FALSE), Q(2, 2, FALSE)}}
-AllTrees == OneTerms \cup TwoTerms \cup Groups \cup Special \cup Nested
+\* products of repetitions (x q1) q2 incl. an inner minimum >= 2 under an outer minimum 0
+ProdQ == {Q(0, 1, FALSE), Q(0, Unbounded, FALSE), Q(1, Unbounded, FALSE), Q(2, Unbounded, FALSE), Q(2, 2, FALSE), Q(1, 2, FALSE)}
+Products == {Anch(<<Term(Group(OneTerm(Term(a, q1))), q2)>> \o tail) : q1 \in ProdQ, q2 \in ProdQ, tail \in {<<>>, <<T(b)>>}}
+AllTrees == OneTerms \cup TwoTerms \cup Groups \cup Special \cup Nested \cup Products
 TreesWithoutNestedLoops == OneTerms \cup TwoTerms \cup Special
 \* quick tier: one term, special shapes, nested loops, and a dozen groups under the plain loop quantifiers
 QuickAlts == {Alt(<<Cat(<<T(a)>>), Cat(<<>>)>>), Alt(<<Cat(<<T(a), T(b)>>), Cat(<<Term(a, Q(0, Unbounded, FALSE))>>)>>),
               Alt(<<Cat(<<T(b), Term(End, NoQ)>>), Cat(<<T(a)>>)>>), Alt(<<Cat(<<T(a)>>), Cat(<<>>), Cat(<<T(b)>>)>>),
               Alt(<<Cat(<<T(a), T(b)>>)>>), Alt(<<Cat(<<>>)>>)}
-QuickTrees == OneTerms \cup Special \cup Nested
+QuickTrees == OneTerms \cup Special \cup Nested \cup {t \in Products : Len(t.cats[1].terms) = 4}
               \cup {Anch(<<Term(Group(x), q)>>) : x \in QuickAlts, q \in {Q(0, Unbounded, FALSE), Q(1, 2, FALSE)}}
 ABC == {97, 98, 99}
 \* the lasso of the pinned thread list: ^(a*)*$
